@@ -61,6 +61,23 @@ Definition module_machine : machine mcfg unit unit (bool * bool) unit :=
             (fun _ _ => tt) (fun _ s => s) (fun _ _ => tt).
 
 (* ------------------------------------------------------------------------------------------------
+   Objects without state: what they compute at a step is a function of the configuration, the step number and the
+   input of the step only (fixed restraints are of this kind; so is histogramRestraint, whose state block holds
+   nothing but its name and step). *)
+Definition stateless_machine {C I Ou : Type} (f : C -> Z -> I -> Ou) : machine C unit I Ou unit :=
+  mkMachine (fun _ => tt) (fun c _ it rel i => (tt, f c it i)) (fun _ _ => tt) (fun _ s => s) (fun _ _ => tt).
+
+Section HistogramRestraintObject.
+  Context {T : Type} (O : NumOps T).
+  (* colvarbias_restraint_histogram (C06 model of update()): energy and forces on the entries of a vector variable *)
+  Record hrcfg := mkHRCfg { hr_k : T; hr_pi : T; hr_sigma : T; hr_lower : T; hr_width : T; hr_ref : list T }.
+  Definition histrestraint_machine : machine hrcfg unit (list T) (T * list T) unit :=
+    stateless_machine (fun c _ xs =>
+      (hist_energy O (hr_k c) (hr_pi c) (hr_sigma c) (hr_lower c) (hr_width c) (hr_ref c) xs,
+       hist_forces O (hr_k c) (hr_pi c) (hr_sigma c) (hr_lower c) (hr_width c) (hr_ref c) xs)).
+End HistogramRestraintObject.
+
+(* ------------------------------------------------------------------------------------------------
    Histogram on scalar variables (src/colvarbias_histogram.cpp, update(): bin of the current values;
    `if (can_accumulate_data()) if (grid->index_ok(bin)) grid->acc_value(bin, 1.0)`; write_state_data:
    the whole grid; read_state_data: the whole grid).  The grid is a total function of the index vector
@@ -186,17 +203,26 @@ Section ExtLagObject.
 
   (* the variable together with the biases that act on it: B sees the reported value; the sum of its
      forces drives the extended coordinate; the atoms feel the spring *)
-  Context {BC BS BO BV : Type} (B : machine BC BS (list T) BO BV) (force_of : BO -> T).
+  (* [bin]: what the bias reads of the variable at this step (its reported value; for ABF also the force the
+     system exerts on the extended coordinate), computed from the variable's state after calc_colvar_properties *)
+  Context {BC BS BI BO BV : Type} (B : machine BC BS BI BO BV) (force_of : BO -> T)
+          (bin : xcfg -> xstate -> BI).
 
   Definition extlag_machine : machine (xcfg * BC) (xstate * BS) xin (T * T * BO) (xsaved * BV) :=
     mkMachine
       (fun c => (x_init, m_init B (snd c)))
       (fun c s it rel i =>
          let s1 := x_pre (fst c) (fst s) rel (xi_x i) in
-         let rb := m_step B (snd c) (snd s) it rel [xs_xr s1] in
+         let rb := m_step B (snd c) (snd s) it rel (bin (fst c) s1) in
          let rx := x_post (fst c) s1 (force_of (snd rb)) (xi_rnd i) in
          ((fst rx, fst rb), (xs_xr s1, snd rx, snd rb)))
       (fun c s => (x_save (fst s), m_save B (snd c) (snd s)))
       (fun c s => (fst s, m_after_save B (snd c) (snd s)))
       (fun c v => (x_load (fst v), m_load B (snd c) (snd v))).
+
+  (* force of the system (the spring) on the extended coordinate: (-0.5 k) * dist2_lgrad(x_ext, x) *)
+  Definition x_fsys (c : xcfg) (s : xstate) : T :=
+    nmul O (nmul O (nneg O nhalfO) (x_k c)) (nmul O (nofZ O 2) (nsub O (xs_x s) (xs_xval s))).
+  (* the biases of an ordinary configuration read the reported value *)
+  Definition bin_value (c : xcfg) (s : xstate) : list T := [xs_xr s].
 End ExtLagObject.
